@@ -161,7 +161,7 @@ def search_wire(run):
 PROPS['C16'] = {
     'modules': ['IpcModel.Props.C16', 'IpcModel.Props.C16Script'],
     'theorems': ['C16.C16_total', 'C16.C16_sound', 'C16.C16_roundtrip', 'Wire.dec_ne_panic_all', 'Wire.dec_sound_all', 'Wire.dec_enc',
-                 'C16.C16_to_script', 'C16.C16_takeAll_get', 'C16.C16_shape'],
+                 'C16.C16_to_script', 'C16.C16_takeAll_get', 'C16.C16_shape', 'C16.C16_code_variant'],
     'scenarios': (lambda a: (lambda tier, seed: a(tier, seed) + [{'args': ['crash', '--shape', str(i), '--tier', tier]} for i in ((1, 2, 5) if tier == 'thorough' else (1,))]))(wire_scen('dec', 2400, 40000)),
     'search': search_wire,
     'rule': ('12 expected types x 4 styles (random bytes; valid encoding; mutated valid encoding; mutated encoding with random attachment lists) '
@@ -509,7 +509,7 @@ PROPS['C03'] = {
 }
 PROPS['C09'] = {
     'modules': ['IpcModel.Props.C09'],
-    'theorems': ['C09.C09_no_hang', 'C09.C09_inv_step', 'C09.C09_error', 'C09.C09_transit'],
+    'theorems': ['C09.C09_no_hang', 'C09.C09_inv_step', 'C09.C09_error', 'C09.C09_transit', 'C09.C09_code_variant', 'C09.C09_no_hang_code'],
     'scenarios': plus(world_scen(['default'], 300, 6000), lambda tier, seed: [{'args': ['vanish', '--tier', tier], 'timeout': 600}],
                       lambda tier, seed: [{'args': ['crash', '--shape', str(i), '--tier', tier, '--only-stale', '1']} for i in ((1, 2, 4, 5, 6) if tier == 'thorough' else (1, 2))]),
     'search': search_world,
@@ -524,7 +524,7 @@ PROPS['C09'] = {
     'level_text': ('Kernel-checked: in the repaired protocol no reachable state has a sender waiting on a dedicated socket that only it keeps alive (the pre-fix variant has a reachable '
                    'stuck state); the specification makes sends fail iff the receiving end exists nowhere and succeed while it is in transit; real sends to vanished receivers '
                    'checked for error / no hang / no signal'),
-    'level_note': 'Trusted: Lean kernel, harness; kernel wake-up of a blocked sender; the NoHang model is a hand-written abstraction of send() tied by the vanish scenario only',
+    'level_note': 'Trusted: Lean kernel, translator, harness; kernel wake-up of a blocked sender; the NoHang model is a hand-written abstraction of send() whose variant flag is read off the source (C09_code_variant) and which is otherwise tied by the vanish scenario',
 }
 PROPS['C19'] = {
     'modules': ['IpcModel.Props.C19', 'IpcModel.Props.C03', 'IpcModel.Props.C09'],
